@@ -215,7 +215,7 @@ def overlapping(draw, base, min_size=0, max_size=4, often=False):
         if i and draw(st.integers(0, 1 if often else 3)) == 0:
             j = draw(st.integers(0, i - 1))
             src = out[j]
-            how = draw(st.sampled_from(["one-name", "one-name", "one-name", "all-names", "same-line"]))
+            how = draw(st.sampled_from(["one-name", "one-name", "all-names", "same-line"] + (["same-line"] if often else ["one-name"])))
             shared = [draw(st.sampled_from(src["names"]))] if how == "one-name" else list(src["names"])
             names = shared if how == "same-line" else list(draw(st.permutations(shared + [n for n in e["names"] if n not in shared])))
             e = dict(e, names=names, key=src["key"])
@@ -283,7 +283,7 @@ PREFERENCE = ["ed25519", "ecdsa256", "rsa2048"]  # generation bias only: the key
 @st.composite
 def _pinned_sshclient(draw):
     """... and half of the marker lines carry exactly the key this case's server is going to present."""
-    d = draw(_sshclient(overlapping(pinned_entry_st, min_size=1, often=True), ACCEPTING * 3 + ["reject", "raise"]))
+    d = draw(_sshclient(overlapping(pinned_entry_st, min_size=1, max_size=5, often=True), ACCEPTING * 3 + ["reject", "raise"]))
     likely = [k for k in PREFERENCE if k in d["server_keys"]][0]
     return dict(d, entries=[dict(e, key=likely) if e["form"] in MARKERS and draw(st.booleans()) else e for e in d["entries"]])
 
@@ -1249,10 +1249,10 @@ def run(ctx):
             break
         run_case(ctx, c)
     ctx.note("lifecycle_combinations_enumerated", len(enum))
-    ctx.explore(case_st, lambda c: run_case(ctx, c), ctx.scale(260, 2200), shrink=False)
+    ctx.explore(case_st, lambda c: run_case(ctx, c), ctx.scale(240, 2200), shrink=False)
     ctx.explore(history_st, lambda c: run_case(ctx, c), ctx.scale(120, 1200), shrink=False, seed_offset=1)
-    ctx.explore(pinned_st, lambda c: run_case(ctx, c), ctx.scale(110, 900), shrink=False, seed_offset=2)
-    ctx.explore(pinned_history_st, lambda c: run_case(ctx, c), ctx.scale(40, 500), shrink=False, seed_offset=3)
+    ctx.explore(pinned_st, lambda c: run_case(ctx, c), ctx.scale(170, 1200), shrink=False, seed_offset=2)
+    ctx.explore(pinned_history_st, lambda c: run_case(ctx, c), ctx.scale(60, 600), shrink=False, seed_offset=3)
     if ctx.classes.get("control:encrypted-userauth-seen", 0) == 0 and not ctx.budget_hit and not ctx.unknown:
         raise core.HarnessError("no accepted configuration ever showed an encrypted USERAUTH_REQUEST: the Tap would be vacuous")
 
